@@ -121,8 +121,9 @@ fn parse_sig(s: &str) -> (Vec<ValType>, Vec<ValType>) {
 
 /// entity operands resolved to typed ids (phase 1, needs &Module)
 pub enum Res {
-    Call(FunctionId),
-    RefFunc(FunctionId),
+    /// call with constant arguments, results dropped (ref.func would need the function to be declared somewhere,
+    /// which an edit cannot assume)
+    Call(FunctionId, Vec<ValType>, usize),
     Global(GlobalId),
     Memory(MemoryId),
     Table(TableId),
@@ -135,10 +136,9 @@ pub fn resolve(m: &Module, refs: &[(String, usize)]) -> Vec<Res> {
     for (sp, id) in refs {
         match sp.as_str() {
             "func" => {
-                // only call functions of type ()->(); others are named through ref.func
                 if let Some(f) = find_id(m.funcs.iter().map(|f| f.id()), *id) {
                     let ty = m.types.get(m.funcs.get(f).ty());
-                    out.push(if ty.params().is_empty() && ty.results().is_empty() { Res::Call(f) } else { Res::RefFunc(f) });
+                    out.push(Res::Call(f, ty.params().to_vec(), ty.results().len()));
                 }
             }
             "global" => out.extend(find_id(m.globals.iter().map(|f| f.id()), *id).map(Res::Global)),
@@ -153,14 +153,40 @@ pub fn resolve(m: &Module, refs: &[(String, usize)]) -> Vec<Res> {
 }
 
 /// build a body that names exactly the resolved entities and produces `results` from constants (phase 2)
+fn push_const(body: &mut InstrSeqBuilder, t: &ValType) {
+    match t {
+        ValType::I32 => {
+            body.i32_const(1);
+        }
+        ValType::I64 => {
+            body.i64_const(1);
+        }
+        ValType::F32 => {
+            body.f32_const(1.0);
+        }
+        ValType::F64 => {
+            body.f64_const(1.0);
+        }
+        ValType::V128 => {
+            body.const_(Value::V128(1));
+        }
+        ValType::Ref(t) => {
+            body.ref_null(*t);
+        }
+    }
+}
+
 pub fn build_body(body: &mut InstrSeqBuilder, res: &[Res], results: &[ValType]) {
     for r in res {
         match r {
-            Res::Call(f) => {
+            Res::Call(f, params, nres) => {
+                for t in params {
+                    push_const(body, t);
+                }
                 body.call(*f);
-            }
-            Res::RefFunc(f) => {
-                body.ref_func(*f).drop();
+                for _ in 0..*nres {
+                    body.drop();
+                }
             }
             Res::Global(g) => {
                 body.global_get(*g).drop();
@@ -180,26 +206,7 @@ pub fn build_body(body: &mut InstrSeqBuilder, res: &[Res], results: &[ValType]) 
         }
     }
     for r in results {
-        match r {
-            ValType::I32 => {
-                body.i32_const(1);
-            }
-            ValType::I64 => {
-                body.i64_const(1);
-            }
-            ValType::F32 => {
-                body.f32_const(1.0);
-            }
-            ValType::F64 => {
-                body.f64_const(1.0);
-            }
-            ValType::V128 => {
-                body.const_(Value::V128(1));
-            }
-            ValType::Ref(t) => {
-                body.ref_null(*t);
-            }
-        }
+        push_const(body, r);
     }
 }
 
